@@ -924,12 +924,56 @@ func (se *shapeEval) typeShape1(t types.Type, which string) *Shape {
 		return unknownShape(name, which+" returns a dynamic call")
 	}
 	fname := f.Name()
+	// accessor: the element accessor handed to a hasher/decoder, whichever way it is written: a function literal, a
+	// method value (x.elemAt) or a function of the package; its index parameter and its body
+	type accessorT struct {
+		param types.Object
+		body  *ast.BlockStmt
+	}
+	accessor := func(fl ast.Expr) (accessorT, bool) {
+		var ft *ast.FuncType
+		var body *ast.BlockStmt
+		switch x := ast.Unparen(fl).(type) {
+		case *ast.FuncLit:
+			ft, body = x.Type, x.Body
+		case *ast.SelectorExpr, *ast.Ident:
+			var obj types.Object
+			if sel, ok := x.(*ast.SelectorExpr); ok {
+				if s := info.Selections[sel]; s != nil {
+					obj = s.Obj()
+				} else {
+					obj = info.Uses[sel.Sel]
+				}
+			} else {
+				obj = info.Uses[x.(*ast.Ident)]
+			}
+			fobj, ok := obj.(*types.Func)
+			if !ok || fobj.Pkg() != mi.pk.Types {
+				return accessorT{}, false
+			}
+			if hd := declOfFunc(mi.pk, fobj); hd != nil && hd.Body != nil {
+				ft, body = hd.Type, hd.Body
+			}
+		}
+		if ft == nil || body == nil {
+			return accessorT{}, false
+		}
+		// (decoders hand out the next element and take no index)
+		if ft.Params == nil || len(ft.Params.List) == 0 {
+			return accessorT{nil, body}, true
+		}
+		if len(ft.Params.List) != 1 || len(ft.Params.List[0].Names) != 1 {
+			return accessorT{}, false
+		}
+		return accessorT{info.Defs[ft.Params.List[0].Names[0]], body}, true
+	}
 	elemOfClosure := func(fl ast.Expr) (types.Type, bool, string) {
 		// the closure returns &(*a)[i] / spec.Wrap(&(*a)[i]) / (*a)[i] ; element type from the receiver's slice/array type
-		lit, ok := ast.Unparen(fl).(*ast.FuncLit)
+		acc, ok := accessor(fl)
 		if !ok {
-			return nil, false, "element accessor is not a closure"
+			return nil, false, "element accessor is neither a closure nor a function of the package"
 		}
+		lit := struct{ Body *ast.BlockStmt }{acc.body}
 		var ret ast.Expr
 		n := 0
 		ast.Inspect(lit.Body, func(m ast.Node) bool {
@@ -980,11 +1024,15 @@ func (se *shapeEval) typeShape1(t types.Type, which string) *Shape {
 	}
 	// closureBound: the K of the guard `if i < K { return &x[i] }` (or `if i >= K { return nil }`) in an element accessor
 	closureBound := func(fl ast.Expr) (Poly, bool) {
-		lit, ok := ast.Unparen(fl).(*ast.FuncLit)
-		if !ok || lit.Type.Params == nil || len(lit.Type.Params.List) != 1 || len(lit.Type.Params.List[0].Names) != 1 {
+		acc, ok := accessor(fl)
+		if !ok {
 			return nil, false
 		}
-		iv := info.Defs[lit.Type.Params.List[0].Names[0]]
+		if acc.param == nil {
+			return nil, false
+		}
+		lit := struct{ Body *ast.BlockStmt }{acc.body}
+		iv := acc.param
 		var bound Poly
 		found := false
 		ast.Inspect(lit.Body, func(m ast.Node) bool {
